@@ -33,18 +33,18 @@ package libinjection
 //@ func (*h5State).skipWhite
 //@   requires wfH0(h)
 //@   modifies h.pos
-//@   ensures  wfH0(h) && old(h.pos) <= h.pos
-//@   ensures  forall k in [old(h.pos), h.pos): isWS0(h.s[k])
-//@   ensures  result == -1 ==> h.pos == h.len
-//@   ensures  result != -1 ==> h.pos < h.len && result == h.s[h.pos] && !isWS0(result)
-//@   loop 1 invariant old(h.pos) <= h.pos && h.pos <= h.len
-//@   loop 1 invariant forall k in [old(h.pos), h.pos): isWS0(h.s[k])
+//@   ensures  [C02 C15 C17] wfH0(h) && old(h.pos) <= h.pos
+//@   ensures  [C02 C15 C17] forall k in [old(h.pos), h.pos): isWS0(h.s[k])
+//@   ensures  [C02 C15 C17] result == -1 ==> h.pos == h.len
+//@   ensures  [C02 C15 C17] result != -1 ==> h.pos < h.len && result == h.s[h.pos] && !isWS0(result)
+//@   loop 1 invariant [C02 C15 C17] old(h.pos) <= h.pos && h.pos <= h.len
+//@   loop 1 invariant [C02 C15 C17] forall k in [old(h.pos), h.pos): isWS0(h.s[k])
 //@   loop 1 decreases h.len - h.pos
 
 //@ func (*h5State).stateEOF
 //@   modifies nothing
 //@   rank     1
-//@   ensures  !result
+//@   ensures  [C02 C15 C17] !result
 
 // ---- <! .. > and <? .. > : ends at the first '>'
 //@ spec postBogus(h *h5State, p int) bool = wfH0(h) && tokOK(h) && tokOff(h) == p && h.tokenType == html5TypeTagComment &&
@@ -346,7 +346,7 @@ package libinjection
 //@   requires h.pos == 0 && h.tokenLen == 0 && !h.isClose
 //@   requires flags in {html5FlagsDataState, html5FlagsValueNoQuote, html5FlagsValueSingleQuote, html5FlagsValueDoubleQuote, html5FlagsValueBackQuote}
 //@   modifies h.s, h.len, h.state
-//@   ensures  wfH(h) && h.s == input && aliases(h.s, input) && h.pos == 0
+//@   ensures  [C02 C13 C15 C17] wfH(h) && h.s == input && aliases(h.s, input) && h.pos == 0
 //@   ensures  [C13] @start h.state == (flags == html5FlagsDataState ? h.stateData : flags == html5FlagsValueNoQuote ? h.stateBeforeAttributeName :
 //@                 flags == html5FlagsValueSingleQuote ? h.stateAttributeValueSingleQuote :
 //@                 flags == html5FlagsValueDoubleQuote ? h.stateAttributeValueDoubleQuote : h.stateAttributeValueBackQuote)
@@ -400,6 +400,8 @@ package libinjection
 //@   loop 1 decreases 4 - rangeindex
 
 //@ func isXSS
+//@   justify  freshState
+//@   defines  [C13] @xv result == XV(input, flags)
 //@   requires flags in {html5FlagsDataState, html5FlagsValueNoQuote, html5FlagsValueSingleQuote, html5FlagsValueDoubleQuote, html5FlagsValueBackQuote}
 //@   modifies nothing
 //@   ensures  [C15] @no_lt_eq (forall i in [0, len(input)): input[i] != '<' && input[i] != '=') ==> !result
@@ -409,12 +411,28 @@ package libinjection
 
 //@ func IsXSS
 //@   modifies nothing
+//@   ensures  [C13] @or5 result == (XV(input, html5FlagsDataState) || XV(input, html5FlagsValueNoQuote) || XV(input, html5FlagsValueSingleQuote) ||
+//@                 XV(input, html5FlagsValueDoubleQuote) || XV(input, html5FlagsValueBackQuote))
 //@   ensures  [C15] @no_lt_eq (forall i in [0, len(input)): input[i] != '<' && input[i] != '=') ==> !result
 
 // =====================================================================================
 // SQLi tokenizer
 // =====================================================================================
 
+// Uninterpreted meanings (introduced by `defines` clauses, justified by purity; DESIGN section 5 M):
+//   KWU(key)      class of ToUpper(key) in the keyword table (0 if absent)            = searchKeyword
+//   BLK(fp)       the fingerprint is a blacklist member                               = blacklist
+//   NWL(st)       whitelist verdict of an abstract scanner state                      = notWhitelist
+//   ST(in, f)     abstract scanner state after one fresh pass over input in, flags f  = sqliFingerprint
+//   FP / DDX / HASH(in, f)  fingerprint and comment statistics of that pass
+//@ ufun KWU(string) int
+//@ ufun BLK(string) bool
+//@ ufun NWL(int) bool
+//@ ufun ST(string, int) int
+//@ ufun FP(string, int) string
+//@ ufun DDX(string, int) int
+//@ ufun HASH(string, int) int
+//@ ufun XV(string, int) bool
 //@ spec wfT(t *sqliToken) bool = 0 <= t.len && t.len <= 31 && t.len == len(t.val) && 0 <= t.pos &&
 //@      (t.category == sqliTokenTypeFunction ==> t.len >= 2) &&
 //@      (t.category == sqliTokenTypeComment ==> t.len >= 1 && (t.val[0] != '#' ==> t.len >= 2))
@@ -442,12 +460,12 @@ package libinjection
 //@ func (*sqliToken).assign
 //@   requires 0 <= length && min(length, 31) <= len(value)
 //@   modifies t.category, t.pos, t.len, t.val
-//@   ensures  t.category == tokenType && t.pos == pos && t.len == min(length, 31) && aliases(t.val, value[:min(length, 31)])
+//@   ensures  [C01 C16 C18] @assign t.category == tokenType && t.pos == pos && t.len == min(length, 31) && aliases(t.val, value[:min(length, 31)])
 
 //@ func (*sqliToken).isUnaryOp
 //@   requires 0 <= t.len && t.len <= len(t.val)
 //@   modifies nothing
-//@   ensures  result ==> t.category == sqliTokenTypeOperator
+//@   ensures  [C01 C06] result ==> t.category == sqliTokenTypeOperator
 
 //@ func (*sqliToken).isArithmeticOp
 //@   requires 0 <= t.len && t.len <= len(t.val)
@@ -460,11 +478,13 @@ package libinjection
 
 //@ func searchKeyword
 //@   modifies nothing
-//@   ensures  result == 0 || inSigma(result)
-//@   ensures  @fn2 result == sqliTokenTypeFunction ==> len(key) >= 2
-//@   ensures  @nonempty result != 0 ==> len(key) >= 1
-//@   ensures  @nocomment result != sqliTokenTypeComment
-//@   ensures  @fp3 result == sqliTokenTypeFingerprint && len(key) == 3 && key[0] < 128 && key[1] < 128 && key[2] < 128 ==> up(key[2]) == 'C' || up(key[2]) == 'U'
+//@   justify  pureOfParams
+//@   defines  [C08 C10] @kwu result == KWU(key)
+//@   ensures  [C01 C08 C16] @class result == 0 || inSigma(result)
+//@   ensures  [C01] @fn2 result == sqliTokenTypeFunction ==> len(key) >= 2
+//@   ensures  [C01 C16] @nonempty result != 0 ==> len(key) >= 1
+//@   ensures  [C01 C08] @nocomment result != sqliTokenTypeComment
+//@   ensures  [C01] @fp3 result == sqliTokenTypeFingerprint && len(key) == 3 && key[0] < 128 && key[1] < 128 && key[2] < 128 ==> up(key[2]) == 'C' || up(key[2]) == 'U'
 
 //@ func isBackslashEscaped
 //@   modifies nothing
@@ -727,6 +747,9 @@ package libinjection
 //@   ensures  wfS0(s) && statsOK(s) && aliases(s.input, old(s.input)) && s.length == len(s.input) && s.flags == (flags == 0 ? 9 : flags)
 //@   ensures  [C01 C08] @length len(s.fingerprint) <= 5 && aliases(result, s.fingerprint)
 //@   ensures  [C01 C08] @fp evilFP(s) || fpOK(s)
+//@   justify  afterReset
+//@   defines  [C08 C12] @pass stateOf(s) == ST(old(s.input), flags == 0 ? 9 : flags) && aliases(s.fingerprint, FP(old(s.input), flags == 0 ? 9 : flags)) &&
+//@                 s.statsCommentDDX == DDX(old(s.input), flags == 0 ? 9 : flags) && s.statsCommentHash == HASH(old(s.input), flags == 0 ? 9 : flags)
 //@   ensures  [C01] @tokens evilFP(s) || (toksOK(s) && 0 <= s.statsFolds && s.statsFolds + len(s.fingerprint) <= s.statsTokens && order2(s))
 //@   loop 1 invariant 0 <= i && i <= length && length <= 6 && len(fp) == i && wfS0(s) && statsOK(s) && aliases(s.input, old(s.input)) &&
 //@                    s.length == len(s.input) && s.flags == (flags == 0 ? 9 : flags) && (length == 6 ==> s.tokenVec[5].category == sqliTokenTypeEvil && i <= 5)
@@ -734,10 +757,15 @@ package libinjection
 //@   loop 1 decreases length - i
 
 //@ func (*sqliState).blacklist
-//@   requires forall i in [0, len(s.fingerprint)): s.fingerprint[i] < 128
+//@   requires len(s.fingerprint) == 2 ==> s.fingerprint[0] < 128 && s.fingerprint[1] < 128
 //@   modifies nothing
 //@   ensures  [C01 C08] @nonempty result ==> len(s.fingerprint) >= 1
 //@   ensures  [C01] @two result && len(s.fingerprint) == 2 ==> up(s.fingerprint[1]) == 'C' || up(s.fingerprint[1]) == 'U'
+//@   justify  readsState
+//@   defines  [C08 C12] @blk result == BLK(s.fingerprint)
+//@   ensures  [C08] @member len(s.fingerprint) >= 1 ==> (result <==> KWU(local(fp)) == sqliTokenTypeFingerprint)
+//@   ensures  [C08] @built len(s.fingerprint) >= 1 ==> len(local(fp)) == len(s.fingerprint) + 1 && local(fp)[0] == '0' &&
+//@                 (forall j in [0, len(s.fingerprint)): local(fp)[j + 1] == up(s.fingerprint[j]))
 //@   loop 1 invariant 0 <= i && i <= length && length == len(s.fingerprint) && len(fp) == i + 1 && fp[0] == '0'
 //@   loop 1 invariant [C01] forall j in [0, i): fp[j + 1] == up(s.fingerprint[j])
 //@   loop 1 decreases length - i
@@ -749,13 +777,33 @@ package libinjection
 //@            0 <= s.statsFolds && s.statsFolds + 2 <= s.statsTokens && order2(s)
 //@   requires len(s.fingerprint) == 3 ==> wfT(s.tokenVec[1])
 //@   modifies nothing
+//@   justify  readsState
+//@   defines  [C12] @nwl result == NWL(stateOf(s))
 
+// The documented cascade of parsing contexts (flags: 1 as-is, 2 inside ', 4 inside "; 8 ANSI, 16 MySQL)
+//@ spec passV(in string, f int) bool = BLK(FP(in, f)) && NWL(ST(in, f))
+//@ spec passR(in string, f int) bool = DDX(in, f) != 0 || HASH(in, f) != 0
+//@ spec hasByte(in string, c int) bool = exists k in [0, len(in)): in[k] == c
+//@ spec casc1(in string) bool = passV(in, 9)
+//@ spec casc2(in string) bool = !casc1(in) && passR(in, 9) && passV(in, 17)
+//@ spec casc3(in string) bool = !casc1(in) && !casc2(in) && hasByte(in, '\'') && passV(in, 10)
+//@ spec casc4(in string) bool = !casc1(in) && !casc2(in) && hasByte(in, '\'') && !passV(in, 10) && passR(in, 10) && passV(in, 18)
+//@ spec casc5(in string) bool = !casc1(in) && !casc2(in) && !casc3(in) && !casc4(in) && hasByte(in, '"') && passV(in, 20)
+//@ spec cascade(in string) bool = len(in) > 0 && (casc1(in) || casc2(in) || casc3(in) || casc4(in) || casc5(in))
+//@ spec cascFP(in string, fp string) bool = (casc1(in) ==> aliases(fp, FP(in, 9))) && (casc2(in) ==> aliases(fp, FP(in, 17))) && (casc3(in) ==> aliases(fp, FP(in, 10))) &&
+//@      (casc4(in) ==> aliases(fp, FP(in, 18))) && (casc5(in) ==> aliases(fp, FP(in, 20)))
 //@ func (*sqliState).check
 //@   requires s.length == len(s.input)
 //@   modifies s.*, s.tokenVec[*].*
 //@   ensures  aliases(s.input, old(s.input))
-//@   ensures  [C08] @fingerprint result ==> 1 <= len(s.fingerprint) && len(s.fingerprint) <= 5 && (evilFP(s) || fpOK(s))
+//@   ensures  [C08] @fingerprint result ==> 1 <= len(s.fingerprint) && len(s.fingerprint) <= 5 && (evilFP(s) || fpOK(s)) && BLK(s.fingerprint)
+//@   ensures  [C12] @cascade result == cascade(old(s.input))
+//@   ensures  [C08 C12] @first result ==> cascFP(old(s.input), s.fingerprint)
 
 //@ func IsSQLi
 //@   modifies nothing
 //@   ensures  [C08] @consistent (result0 ==> 1 <= len(result1) && len(result1) <= 5) && (!result0 ==> len(result1) == 0)
+//@   ensures  [C08] @alphabet result0 ==> forall i in [0, len(result1)): inSigma(result1[i]) && (result1[i] == sqliTokenTypeComment ==> i == len(result1) - 1)
+//@   ensures  [C08] @member result0 ==> BLK(result1)
+//@   ensures  [C12] @cascade result0 == cascade(input)
+//@   ensures  [C08 C12] @first result0 ==> cascFP(input, result1)
